@@ -1,5 +1,6 @@
 import Rustemo.Proofs.TablePropC
 import Rustemo.Proofs.TableLa
+import Rustemo.Proofs.TableJust3
 /-!
 # Table construction: the structural invariant holds of the states of every table `build` returns
 -/
@@ -33,6 +34,7 @@ structure Final (g : Grammar) (s : Settings) (t : Table) (sts : Array State) (au
   inv : Inv g autos sts
   invc : InvC g sts.size sts.size sts
   la : LaAll g sts
+  just : JInv g t.firsts autos sts
   first : ∃ fuel, firstSets g fuel = .ok t.firsts
   fix : ∀ i, i < sts.size → ∃ st, sts[i]? = some st ∧ closureRound g t.firsts st.items = .ok (st.items, false)
   stable : ∀ i, i < sts.size → ∀ j ∈ targetsOf (sts.getD i default), EdgeStable sts i j
@@ -49,6 +51,10 @@ theorem built_final (hg : GW g) {s : Settings} {fuel : Nat} {t : Table} (hb : Bu
   obtain ⟨hx1, hx2⟩ := propagate_exit fuel sts1 sts h6
   have hw := (firstSets_spec hg h1).1
   have hL0 : LaAll g sts0 := LaAll.calcStates hg hw (fun i st h => by simp at h) h4
+  obtain ⟨pj, hpj, hJ0⟩ := JInv.calcStates (fs := fs) hg (Inv.empty g) (InvC.empty g) (fun i st h => by simp at h) h4
+  rw [hg.aug_prods] at hpj
+  simp only [List.cons.injEq, and_true] at hpj
+  subst hpj
   obtain ⟨p, hp, hI0⟩ := Inv.calcStates hg (Inv.empty g) h4
   rw [hg.aug_prods] at hp
   simp only [List.cons.injEq, and_true] at hp
@@ -80,14 +86,22 @@ theorem built_final (hg : GW g) {s : Settings} {fuel : Nat} {t : Table} (hb : Bu
     obtain ⟨hI, _⟩ := Inv.propagate hg hI0 h6
     have hC := InvC.propagate hg hI0 hC0 h6
     simp only [Array.size_empty] at hI
-    exact ⟨sts, _, hI, hC, hL0.propagate hw h6, ⟨fuel, by rw [h10]; exact h1⟩, by rw [h10]; exact hx1, hx2,
+    simp only [Array.size_empty] at hJ0
+    exact ⟨sts, _, hI, hC, hL0.propagate hw h6, by rw [h10]; exact JInv.propagate_just hg fuel _ _ hI0 hJ0 h6,
+      ⟨fuel, by rw [h10]; exact h1⟩, by rw [h10]; exact hx1, hx2,
       .main a1 (by rw [h9, a2]), hsize, hfin, hrn⟩
   · obtain ⟨pl, hpl, hI1⟩ := Inv.calcStates hg hI0 a3
     have hC1 := InvC.calcStates hg hI0 hC0 a3
     obtain ⟨hI, _⟩ := Inv.propagate hg hI1 h6
     have hC := InvC.propagate hg hI1 hC1 h6
     simp only [Array.size_empty] at hI
-    exact ⟨sts, _, hI, hC, (hL0.calcStates hg hw a3).propagate hw h6, ⟨fuel, by rw [h10]; exact h1⟩,
+    obtain ⟨pl', hpl', hJ1⟩ := JInv.calcStates (fs := fs) hg hI0 hC0 hJ0 a3
+    rw [hpl] at hpl'
+    simp only [List.cons.injEq, and_true] at hpl'
+    subst hpl'
+    simp only [Array.size_empty] at hJ1
+    exact ⟨sts, _, hI, hC, (hL0.calcStates hg hw a3).propagate hw h6,
+      by rw [h10]; exact JInv.propagate_just hg fuel _ _ hI1 hJ1 h6, ⟨fuel, by rw [h10]; exact h1⟩,
       by rw [h10]; exact hx1, hx2, .layout l pl sts0.size a1 (by rw [h9, a2]) hpl hsz0, hsize, hfin, hrn⟩
 
 end Rustemo.Table
